@@ -265,14 +265,21 @@ Section L3.
       zb; cbn; unfold new_range, fmin_key, fmax_key; zb; try subst; reflexivity.
     - (* StringSz *)
       apply andb_true_iff in Hok. destruct Hok as [Hok H3]. apply andb_true_iff in Hok. destruct Hok as [H1 H2].
-      apply range_ok_spec in H1. apply negb_true_iff in H2, H3. apply Z.eqb_neq in H2.
+      apply range_ok_spec in H1. apply negb_true_iff in H2, H3. apply andb_false_iff in H2.
       unfold is_positive in H3. unfold min_int64, max_int64 in *.
       unfold TypePrint.reparse. cbn [params_gen name_of]. unfold int_params, min_int64, max_int64.
-      destruct (Z.eqb_spec lo (-9223372036854775808)); [lia|].
-      destruct (Z.eqb_spec hi 9223372036854775807) as [->|Hh]; cbn; unfold new_range, new_string_sized, is_positive, min_int64, max_int64.
-      + destruct (Z.ltb_spec 9223372036854775807 lo); [lia|]. cbn.
-        rewrite H3. destruct (Z.eqb_spec lo (-9223372036854775808)); [lia|]. reflexivity.
-      + destruct (Z.ltb_spec hi lo); [lia|]. cbn.
+      destruct (Z.eqb_spec lo (-9223372036854775808)) as [El|Hl];
+        destruct (Z.eqb_spec hi 9223372036854775807) as [Eh|Hh].
+      + exfalso. destruct H2 as [H2|H2]; discriminate H2.
+      + (* default, hi *)
+        cbn. unfold new_range, new_string_sized, is_positive, min_int64, max_int64.
+        destruct (Z.ltb_spec hi (-9223372036854775808)); [lia|]. cbn.
+        destruct (Z.eqb_spec hi 9223372036854775807); [lia|]. rewrite ?andb_false_r. subst lo. reflexivity.
+      + cbn. unfold new_range, new_string_sized, is_positive, min_int64, max_int64.
+        destruct (Z.ltb_spec 9223372036854775807 lo); [lia|]. cbn.
+        subst hi. rewrite H3. destruct (Z.eqb_spec lo (-9223372036854775808)); [lia|]. reflexivity.
+      + cbn. unfold new_range, new_string_sized, is_positive, min_int64, max_int64.
+        destruct (Z.ltb_spec hi lo); [lia|]. cbn.
         destruct (Z.eqb_spec hi 9223372036854775807); [lia|]. rewrite !andb_false_r. reflexivity.
     - (* Enum *)
       rewrite (reparse_unfold (TEnum ci vs)). cbn [params_gen name_of canon]. destruct ci.
@@ -379,7 +386,7 @@ Section L3.
         cbn [map]. constructor; [|exact (IH Hrest Hok)].
         cbn [fst snd]. apply member_seq; [exact Hn|exact Hk|exact (Hpv Hv)]. }
       cbn [sequence_list]. rewrite (seq_hash_entries _ _ Hent). cbn [cbind].
-      unfold TypePrint.create. cbn [has_array existsb orb].
+      unfold TypePrint.create, struct_from_args. cbn [has_array existsb orb].
       assert (Hel : struct_elements accepts_undef (map (fun m => let '(n, (k, v)) := m in (key_pv n k v, GTy (canon v))) ms)
                     = COk (map (fun m => let '(n, (k, v)) := m in (n, (k, canon v))) ms)).
       { clearbody ms. clear m0 ms0 Hent H. induction ms as [|[n [k v]] ms IH]; [reflexivity|].
